@@ -6,7 +6,7 @@ From Tab Require Model.Core Spec.History Proofs.CoreSim.
 From Tab Require Model.Cell Proofs.CellProofs Proofs.TotalProofs.
 From Tab Require Model.Markdown Proofs.MarkdownProofs.
 From Tab Require Model.Json Proofs.JsonErrProofs.
-From Tab Require Model.Text Model.Decoration Spec.TextLayout Proofs.TextProps Proofs.TextZero.
+From Tab Require Model.Text Model.Decoration Spec.TextLayout Proofs.TextProps Proofs.TextZero Proofs.TextAnyDec.
 From Tab Require Model.Html Proofs.HtmlProofs.
 
 (* Render(): an error always comes with the empty string, whatever RenderTo did *)
@@ -87,7 +87,7 @@ Theorem c09_total_table :
   /\ render_string (csv_render v) <> Panic
   /\ render_string (Markdown.md_render W v) <> Panic
   /\ render_string (Json.json_render strenc v) <> Panic
-  /\ (forall d, TextLayout.dec_ok d -> render_string (Text.text_render W d v) <> Panic)
+  /\ (forall d, render_string (Text.text_render W d v) <> Panic)       (* EVERY decoration value, hand-written and never populated ones included *)
   /\ (forall d, Decoration.is_empty_decoration d = true -> render_string (Text.text_render W d v) = Ok ([], true))
   /\ (forall id cls cap have rcs, HtmlProofs.rc_fit (Html.mkHtmlIn id cls cap have rcs v) ->
         exists out, render_string (Html.html_render (Html.mkHtmlIn id cls cap have rcs v)) = Ok (out, false)).
@@ -99,8 +99,9 @@ Proof.
   split; [apply c09_render_string_no_panic, MarkdownProofs.md_no_panic, Hv|].
   split; [apply c09_render_string_no_panic, JsonErrProofs.json_no_panic, Hv|].
   split.
-  { intros d Hd. apply c09_render_string_no_panic, TextZero.text_no_panic_all; try assumption.
-    apply hview_cells_ok. }
+  { intros d. apply c09_render_string_no_panic, TextAnyDec.text_no_panic_any_decoration.
+    - destruct Hv as (_ & _ & Hal & _). exact Hal.
+    - apply hview_cells_ok. }
   split.
   { intros d Hd. rewrite (TextProps.empty_decoration_err_proof W d v Hd). reflexivity. }
   intros id cls cap have rcs Hfit.
@@ -108,6 +109,26 @@ Proof.
   exists (fst r). unfold Html.html_render. rewrite Hr. reflexivity.
 Qed.
 Print Assumptions c09_total_table.
+
+(* The text renderer under EVERY decoration value.  SetDecoration accepts any
+   Decoration, so "every style" includes decorations an application writes by
+   hand with any subset of the 22 glyph fields empty and never Populate()s.
+   On every view with one alignment slot per column plus column 0 whose cells
+   report the sizes Cell computes - tables without columns, zero-cell rows and
+   over-long rows included - Render never panics, and it returns an error
+   (with no text) exactly for the empty decoration, i.e. an unknown style
+   name.  (Refuted for the code as it was before D22's repair:
+   Findings/TextHandDecoration.v.) *)
+Theorem c09_text_any_decoration : forall (W : bytes -> nat) d v,
+  length (v_align v) = S (v_ncols v) -> TextLayout.cells_ok W v ->
+  render_string (Text.text_render W d v) <> Panic
+  /\ (Text.text_render W d v = Err <-> Decoration.is_empty_decoration d = true).
+Proof.
+  intros W d v Hal Hc. split.
+  - apply c09_render_string_no_panic. exact (TextAnyDec.text_no_panic_any_decoration W d v Hal Hc).
+  - exact (TextAnyDec.text_refused_iff_empty_decoration W d v Hal Hc).
+Qed.
+Print Assumptions c09_text_any_decoration.
 
 (* Beyond single-table histories.  A row can be made longer than its table is
    wide (a *Row attached to a second table and then extended: the second table
